@@ -3,6 +3,7 @@ package harness
 import (
 	"fmt"
 	"net"
+	"runtime"
 	"strings"
 	"sync"
 	"sync/atomic"
@@ -127,6 +128,13 @@ func c20Api(r *rng, id string) {
 	}
 	stages := []string{"joined"}
 	plan := r.intn(4)
+	hungPeer := r.chance(1, 3)
+	if hungPeer {
+		// a peer freezes: it keeps its listening socket but answers nothing (TCP fallback pings to it
+		// are accepted and never acknowledged)
+		stages = append(stages, "hung-peer")
+		cl.nodes[2].hang()
+	}
 	// stage 1: joined - concurrent callers
 	par := func(k, calls int) {
 		var wg sync.WaitGroup
@@ -144,6 +152,36 @@ func c20Api(r *rng, id string) {
 		wg.Wait()
 	}
 	par(1+r.intn(3), 6)
+	if plan >= 1 && !hungPeer && r.chance(1, 3) {
+		// a peer's dead claim about this node is handled after Leave has set its flag and before Leave's
+		// own departure is processed: the accusation then carries the departure, and Leave must still
+		// return once it has been handed out
+		stages = append(stages, "leave-vs-accusation")
+		leftCalled = true
+		var lres string
+		var lwg sync.WaitGroup
+		inc := ml.VerifSnapshotState(m).Incarnation
+		ml.VerifWithNodeLock(m, func() {
+			lwg.Add(2)
+			go func() { defer lwg.Done(); ml.VerifDeadNode(m, inc, sut.name, "n0") }()
+			for i := 0; i < 2000; i++ {
+				runtime.Gosched()
+			}
+			go func() {
+				defer lwg.Done()
+				call("Leave", 3*time.Second, func() string { lres = errS(m.Leave(3 * time.Second)); return lres })
+			}()
+			for i := 0; i < 2000; i++ {
+				runtime.Gosched()
+			}
+		})
+		lwg.Wait()
+		if lres == "err" {
+			mu.Lock()
+			bads = append(bads, "Leave-timed-out-although-its-departure-was-carried-by-a-concurrent-accusation")
+			mu.Unlock()
+		}
+	}
 	if plan >= 1 && r.chance(1, 2) {
 		// Leave runs to completion while UpdateNode(0) is inside the delegate's NodeMeta callback
 		stages = append(stages, "leave-during-update")
@@ -212,6 +250,9 @@ func c20Api(r *rng, id string) {
 	veryLate := sut.tr.afterShutdownWrites.Load() - sentAtShutdown - late
 	if veryLate > 0 {
 		bads = append(bads, fmt.Sprintf("background-activity-after-shutdown:%d-send-attempts", veryLate))
+	}
+	if k := sut.tr.pendingHungReads.Load(); k > 0 {
+		bads = append(bads, fmt.Sprintf("background-activity-after-shutdown:%d-stream-reads-still-pending-on-a-hung-peer", k))
 	}
 	for _, nd := range cl.nodes {
 		if nd.overlap.Load() > 0 {
